@@ -127,3 +127,50 @@ Definition sig_cli (s : tsig) : result cli :=
                 kw (bind_ok (s_params s) kw)
                 (map (kind_name_of_arg s) args) (map takes_value args))
   end.
+
+(** ** How the keyword arguments reach the function.
+
+    Python parameter kinds: [get_arguments] iterates over ALL parameters of
+    the signature whatever their kind, so every one of them becomes an
+    Argument and a key of [as_kwargs]; the body is then called as
+    [task(ctx, <2star>kwargs)], i.e. [Task.__call__(self, <star>args, <2star>kwargs)]
+    followed by [self.body(<star>args, <2star>kwargs)]. *)
+Inductive pkind :=
+| PPlain        (* positional-or-keyword, or keyword-only *)
+| PPosOnly      (* before a '/' *)
+| PVarPos       (* star-args *)
+| PVarKw.       (* double-star kwargs *)
+
+Definition pkind_eqb (a b : pkind) : bool :=
+  match a, b with
+  | PPlain, PPlain | PPosOnly, PPosOnly | PVarPos, PVarPos | PVarKw, PVarKw => true
+  | _, _ => false
+  end.
+
+Definition kind_at (kinds : list pkind) (i : nat) : pkind := nth i kinds PPlain.
+
+(** inspect.signature(body).bind(ctx, <2star>kw) when parameters have kinds: a
+    keyword must name a plain parameter unless a double-star parameter absorbs it; a
+    positional-only parameter cannot be supplied by keyword, so it must have a
+    default; a plain parameter without default must be supplied *)
+Definition bind_kinds (ps : list param) (kinds : list pkind) (kw : list (string * aval)) : bool :=
+  let idx := seq 0 (List.length ps) in
+  let has_vk := existsb (fun i => pkind_eqb (kind_at kinds i) PVarKw) idx in
+  forallb (fun kv =>
+             has_vk ||
+             existsb (fun i => pkind_eqb (kind_at kinds i) PPlain &&
+                               String.eqb (p_name (nth i ps (mkParam "" DEmpty))) (fst kv)) idx) kw &&
+  forallb (fun i =>
+             let p := nth i ps (mkParam "" DEmpty) in
+             match kind_at kinds i, p_default p with
+             | PPlain, DEmpty => mem (p_name p) (map fst kw)
+             | PPosOnly, DEmpty => false
+             | _, _ => true
+             end) idx.
+
+(** the call [task(ctx, <2star>kw)] hands every parameter the value meant for it:
+    no key collides with [Task.__call__]'s own [self], and no parameter is
+    positional-only, star-args or double-star kwargs (those are refused by Python, or
+    receive the keyword dictionary instead of their own empty default) *)
+Definition call_ok (kinds : list pkind) (kw : list (string * aval)) : bool :=
+  negb (mem "self" (map fst kw)) && forallb (fun k => pkind_eqb k PPlain) kinds.
